@@ -324,7 +324,7 @@ def gen_data(rnd, n):
                     for _ in range(rnd.randint(1, 5))]
             out.append(Data(k, name, values=vals))
         elif k == "string":
-            out.append(Data(k, name, string="".join(rnd.choice("Hello, World! abc#:XYZ09") for _ in range(rnd.randint(0, 9)))))
+            out.append(Data(k, name, string="".join(rnd.choice("Hello, World! abc:XYZ09") for _ in range(rnd.randint(0, 9)))))
         else:
             out.append(Data(k, name, n=rnd.randint(0, 5)))
     return out
